@@ -29,6 +29,18 @@ func buildOperand(v interface{}, typ string, scale float64) geom.Polygonal {
 		return b
 	case "Polygon":
 		return decPolygon(polys[0], dec)
+	case "PolygonFlat": // every ring of every member in one Polygon value
+		var p geom.Polygon
+		for _, m := range polys {
+			p = append(p, decPolygon(m, dec)...)
+		}
+		return p
+	case "PolygonHoleFirst": // the rings of the (single) member in reverse order
+		p := decPolygon(polys[0], dec)
+		for i, j := 0, len(p)-1; i < j; i, j = i+1, j-1 {
+			p[i], p[j] = p[j], p[i]
+		}
+		return p
 	}
 	mp := make(geom.MultiPolygon, len(polys))
 	for i, p := range polys {
